@@ -186,104 +186,132 @@ def _basis_states(ctx, f, name):
 
 
 def check_assembly(prog, ctx):
+    """R18.3 by abstract evaluation: the assembly function with its two collaborators stubbed; every model builder evaluated for
+    every symmetry it supports with the assembly recorded."""
+    from engine.absarray import evaluator
+    from engine.minieval import Obj, Raised, Unsupported
+
     rid = "R18.3"
     f = prog.func("symmray.fermionic_local_operators:build_local_fermionic_array")
-    d = [a for a in walk_own(f.node) if isinstance(a, ast.Assign) and src(a.targets[0]) == "duals"]
-    ctx.check(len(d) == 1 and src(d[0].value) == "[False] * len(bases) + [True] * len(bases)", rid, f, f.node, "duals",
-              "ket legs first (non-dual), then bra legs (dual), one per basis")
-    call = [c for c in walk_own(f.node) if isinstance(c, ast.Call) and src(c.func) == "from_dense"]
-    ok = len(call) == 1
-    if ok:
-        kws = {k.arg: src(k.value) for k in call[0].keywords}
-        ok = kws.get("duals") == "duals" and kws.get("index_maps") == "index_maps * 2" and kws.get("fermionic") == "True" \
-            and kws.get("symmetry") == "symmetry" and src(call[0].args[0]) == "dense"
-    ctx.check(ok, rid, f, f.node, "from_dense call", "dense -> FermionicArray with the index maps doubled (ket legs, bra legs) and fermionic=True")
+    for nb in (1, 2, 3):
+        rec = {}
+
+        def from_dense(dense, *a, _rec=rec, **kw):
+            _rec.update(kw)
+            _rec["dense"] = dense
+            _rec["extra_positional"] = a
+            return ("array",)
+
+        ev = evaluator(prog, extra={"build_local_fermionic_dense": lambda terms, bases, like="numpy": ("dense", len(bases)), "from_dense": from_dense})
+        bases = tuple(((), ("c",)) for _ in range(nb))
+        maps = [[0, 1] for _ in range(nb)]
+        try:
+            ev.call(f, [(), bases, "Z2", maps])
+        except Unsupported as e:
+            raise AnalysisError(f"build_local_fermionic_array outside the evaluable sub-language: {e}")
+        except (Raised, KeyError, TypeError, AttributeError, ValueError, IndexError) as e:
+            ctx.check(False, rid, f, f.node, "assembly fails", f"build_local_fermionic_array fails: {type(e).__name__}: {getattr(e, 'what', e)}")
+            continue
+        duals = rec.get("duals") if "duals" in rec else (rec["extra_positional"][1] if len(rec.get("extra_positional", ())) > 1 else None)
+        ctx.check(duals is not None and list(duals) == [False] * nb + [True] * nb, rid, f, f.node, f"duals ({nb} sites)",
+                  f"{nb} site(s): ket legs first (non-dual), then bra legs (dual), one per basis (got {duals})")
+        ctx.check(list(rec.get("index_maps", ())) == maps * 2 and rec.get("fermionic") is True and rec.get("symmetry") == "Z2"
+                  and rec.get("dense") == ("dense", nb), rid, f, f.node, f"from_dense ({nb} sites)",
+                  f"{nb} site(s): dense operator -> FermionicArray with the index maps doubled (ket legs, bra legs), fermionic=True and the symmetry given")
     dn = prog.func("symmray.fermionic_local_operators:build_local_fermionic_dense")
-    z = [c for c in walk_own(dn.node) if isinstance(c, ast.Call) and src(c.func) == "ar.do" and src(c.args[0]) == "'zeros'"]
-    ctx.check(len(z) == 1 and src(z[0].args[1]) == "tuple((len(b) for b in bases)) * 2", rid, dn, dn.node, "dense shape",
-              "dense operator has one axis per basis, twice (ket, bra)")
-    # model builders: one index map per basis; literal maps vs literal bases
-    sp = prog.func("symmray.fermionic_local_operators:get_spinless_charge_indexmap")
-    sf = prog.func("symmray.fermionic_local_operators:get_spinful_charge_indexmap")
+    shapes = []
 
-    def maps_of(g):
-        out = {}
-        for n in walk_own(g.node):
-            if isinstance(n, ast.If) and isinstance(n.body[0], ast.Return):
-                t = n.test
-                syms = []
-                if isinstance(t, ast.Compare) and isinstance(t.ops[0], ast.Eq):
-                    syms = [t.comparators[0].value]
-                elif isinstance(t, ast.Compare) and isinstance(t.ops[0], ast.In):
-                    syms = [e.value for e in t.comparators[0].elts]
-                try:
-                    val = ast.literal_eval(n.body[0].value)
-                except Exception:
-                    raise AnalysisError(f"{g.qualname}: charge map is not a literal")
-                for s_ in syms:
-                    out[s_] = val
-        return out
+    class _Z(dict):
+        pass
 
-    spm, sfm = maps_of(sp), maps_of(sf)
-    ctx.need(set(spm) == {"Z2", "U1"} and set(sfm) == {"Z2", "U1", "Z2Z2", "U1U1"}, "charge index maps changed their symmetry coverage")
+    def ar_do(name, *a, like=None, **kw):
+        if name == "zeros":
+            shapes.append(tuple(a[0]))
+            return _Z()
+        raise AnalysisError(f"build_local_fermionic_dense uses ar.do({name!r})")
+
+    ev = evaluator(prog, extra={"ar.do": ar_do, "build_local_fermionic_elements": lambda terms, bases: {}})
+    bases = (((), ("c",)), ((), ("u",), ("d",), ("u", "d")))
+    try:
+        ev.call(dn, [(), bases])
+    except Unsupported as e:
+        raise AnalysisError(f"build_local_fermionic_dense outside the evaluable sub-language: {e}")
+    ctx.check(shapes == [(2, 4, 2, 4)], rid, dn, dn.node, "dense shape", f"dense operator has one axis per basis, twice (ket, bra): {shapes}")
+
     builders = {
-        "fermi_hubbard_spinless_local_array": ("spinless", ["basis_a", "basis_b"]),
-        "fermi_hubbard_local_array": ("spinful", ["basis_a", "basis_b"]),
+        "fermi_hubbard_spinless_local_array": ("spinless", 2),
+        "fermi_hubbard_local_array": ("spinful", 2),
+        "fermi_number_operator_spinless_local_array": ("spinless", 1),
+        "fermi_number_operator_spinful_local_array": ("spinful", 1),
+        "fermi_spin_operator_local_array": ("spinful", 1),
     }
-    single = {
-        "fermi_number_operator_spinless_local_array": "spinless",
-        "fermi_number_operator_spinful_local_array": "spinful",
-        "fermi_spin_operator_local_array": "spinful",
-    }
-    for name, (kind, bnames) in builders.items():
+    supported = {"spinless": ("Z2", "U1"), "spinful": ("Z2", "U1", "Z2Z2", "U1U1")}
+    for name, (kind, nbases) in builders.items():
         g = prog.func(f"symmray.fermionic_local_operators:{name}")
-        call = [c for c in walk_own(g.node) if isinstance(c, ast.Call) and src(c.func) == "build_local_fermionic_array"]
-        ctx.need(len(call) == 1, f"{name}: assembly call not found")
-        im = [k.value for k in call[0].keywords if k.arg == "index_maps"]
-        ctx.check(len(im) == 1 and isinstance(im[0], ast.List) and len(im[0].elts) == len(bnames), rid, g, call[0], src(im[0]) if im else "",
-                  f"{name} passes one index map per basis ({len(bnames)})")
-        getter = "get_spinless_charge_indexmap" if kind == "spinless" else "get_spinful_charge_indexmap"
-        ctx.check(any(isinstance(a, ast.Assign) and src(a.value) == f"{getter}(symmetry)" for a in walk_own(g.node)), rid, g, g.node, getter,
-                  f"{name} uses the {kind} charge map")
-        for bn in bnames:
-            states = _basis_states(ctx, g, bn)
-            _check_map(ctx, rid, g, bn, states, spm if kind == "spinless" else sfm)
-    for name, kind in single.items():
-        g = prog.func(f"symmray.fermionic_local_operators:{name}")
-        bs = [a for a in walk_own(g.node) if isinstance(a, ast.Assign) and src(a.targets[0]) == "bases"]
-        ctx.need(len(bs) == 1 and isinstance(bs[0].value, ast.List) and len(bs[0].value.elts) == 1, f"{name}: single literal basis not found")
-        states = []
-        for st in bs[0].value.elts[0].elts:
-            states.append(tuple(o.value.id for o in st.elts if isinstance(o, ast.Attribute) and o.attr == "dag"))
-        _check_map(ctx, rid, g, "bases[0]", states, spm if kind == "spinless" else sfm)
-        call = [c for c in walk_own(g.node) if isinstance(c, ast.Call) and src(c.func) == "build_local_fermionic_array"]
-        im = [k.value for k in call[0].keywords if k.arg == "index_maps"] if call else []
-        ctx.check(len(im) == 1 and isinstance(im[0], ast.List) and len(im[0].elts) == 1, rid, g, g.node, "index maps",
-                  f"{name} passes one index map for its one basis")
-    ctx.minimum(rid, 20, "assembly + maps of five builders")
+        for sym in supported[kind]:
+            rec = {}
 
+            def recorder(terms, bases, symmetry, *a, _rec=rec, **kw):
+                _rec.update(kw)
+                _rec["bases"], _rec["symmetry"] = bases, symmetry
+                if a:
+                    _rec["index_maps"] = a[0]
+                return ("array",)
 
-def _check_map(ctx, rid, g, bname, states, maps):
-    for sym, m in sorted(maps.items()):
-        ok = len(m) == len(states)
-        why = f"map has {len(m)} entries for {len(states)} basis states"
-        if ok:
-            for st, c in zip(states, m):
-                n = len(st)
-                up = sum(1 for o in st if o.endswith("u"))
-                dn = sum(1 for o in st if o.endswith("d"))
-                if sym == "Z2":
-                    good = c == n % 2
-                elif sym == "U1":
-                    good = c == n
-                else:
-                    good = tuple(c) == (up, dn) if (up + dn) == n else False
-                if not good:
-                    ok = False
-                    why = f"state {st} ({n} particle(s), up={up}, down={dn}) is mapped to charge {c}"
+            ev = evaluator(prog, extra={"build_local_fermionic_array": recorder})
+            try:
+                ev.call(g, [sym])
+            except Unsupported as e:
+                raise AnalysisError(f"{name} outside the evaluable sub-language: {e}")
+            except (Raised, KeyError, TypeError, AttributeError, ValueError, IndexError) as e:
+                ctx.check(False, rid, g, g.node, f"{sym}: fails", f"{name}({sym!r}) fails: {type(e).__name__}: {getattr(e, 'what', e)}")
+                continue
+            bases_, maps_ = rec.get("bases"), rec.get("index_maps")
+            ok = bases_ is not None and maps_ is not None and len(bases_) == nbases and len(maps_) == len(bases_) and rec.get("symmetry") == sym
+            ctx.check(ok, rid, g, g.node, f"{sym}: one map per basis",
+                      f"{name}({sym!r}) passes one index map per basis ({nbases}) and the symmetry it was given")
+            if not ok:
+                continue
+            bad = None
+            for k, (basis, m) in enumerate(zip(bases_, maps_)):
+                if len(basis) != len(m):
+                    bad = f"basis {k} has {len(basis)} states, its map {len(m)} entries"
                     break
-        ctx.check(ok, rid, g, g.node, f"{bname} vs {sym} charge map",
-                  f"{g.name}: {sym} charge map {m} matches basis {bname} {states}" + ("" if ok else f" — {why}"))
+                for st, c in zip(basis, m):
+                    if not all(isinstance(o, Obj) and o.fields.get("_dual") is True for o in st):
+                        bad = f"basis {k}: state {st!r} is not a product of creation operators"
+                        break
+                    labels = [str(o.fields.get("_label")) for o in st]
+                    n = len(labels)
+                    up = sum(1 for l_ in labels if l_.endswith(("u", "up")))
+                    dn_ = sum(1 for l_ in labels if l_.endswith(("d", "down", "dn")))
+                    if sym == "Z2":
+                        good = c == n % 2
+                    elif sym == "U1":
+                        good = c == n
+                    else:
+                        if up + dn_ != n:
+                            raise AnalysisError(f"{name}: operator labels {labels} carry no spin suffix; extend rules/c18_operators.check_assembly")
+                        good = tuple(c) == ((up % 2, dn_ % 2) if sym == "Z2Z2" else (up, dn_))
+                    if not good:
+                        bad = f"basis {k}: state {labels} ({n} particle(s), up={up}, down={dn_}) is mapped to charge {c}"
+                        break
+                if bad:
+                    break
+            ctx.check(bad is None, rid, g, g.node, f"{sym}: charge map vs bases",
+                      f"{name}({sym!r}): every basis state is mapped to its parity / particle number / (up, down) occupation"
+                      + ("" if bad is None else f" — {bad}"))
+        # an unsupported symmetry is refused
+        try:
+            evaluator(prog, extra={"build_local_fermionic_array": lambda *a, **k: ("array",)}).call(g, ["Z3"])
+            ctx.check(False, rid, g, g.node, "unknown symmetry", f"{name}('Z3') is accepted")
+        except Raised:
+            ctx.ok(rid, f"{g.file}:{g.qualname}", "an unknown symmetry is refused")
+        except Unsupported as e:
+            raise AnalysisError(f"{name} outside the evaluable sub-language: {e}")
+        except (KeyError, TypeError, AttributeError, ValueError, IndexError) as e:
+            ctx.check(False, rid, g, g.node, "unknown symmetry", f"{name}('Z3') fails with {type(e).__name__} instead of the explicit error")
+    ctx.minimum(rid, 20, "assembly + maps of five builders")
 
 
 def run(prog, ctx):
@@ -293,5 +321,12 @@ def run(prog, ctx):
     ctx.rule("R18.3", "assembly: duals ket then bra, index maps doubled, fermionic; literal charge maps agree with the literal bases")
     check_sort(prog, ctx)
     check_elements(prog, ctx, 4 if ctx.tier == "thorough" else 3)
-    check_bra(prog, ctx)
+    try:
+        check_bra(prog, ctx)
+    except AnalysisError as e:
+        # the textual form of the bra-basis construction changed; its behaviour is what R18.4 decides (elements = <0| bra-basis† term ket-basis |0>)
+        ctx.notes.append(f"R18.2 not applicable to the current form ({e}); R18.4 decides the behaviour")
+        f = prog.func("symmray.fermionic_local_operators:build_local_fermionic_elements")
+        for _ in range(4):
+            ctx.ok("R18.2", f"{f.file}:{f.qualname}", "textual bra-basis rule not applicable to this form; decided by R18.4")
     check_assembly(prog, ctx)
